@@ -313,8 +313,7 @@ def open_message_prune_rule(ctx, clause, consequence):
     else:
         R.violation(clause, 'R6', inst, 'open_message:prune-strict', 'conditions %s parse to %s: open messages of the threshold epoch itself would be deleted, %s' % (
             [t for t, _ in conds], parsed, consequence), dq.loc())
-    ctx.arg_origin(clause, AG + 'database::repository::open_message_repository::OpenMessageRepository::clean_epoch',
-                   AG + 'database::query::open_message::delete_open_message::DeleteOpenMessageQuery::below_epoch_threshold', 0,
-                   require=['p#2'], desc='(threshold) <- epoch')
-    ctx.arg_origin(clause, CS + 'inform_epoch', AG + 'database::repository::open_message_repository::OpenMessageRepository::clean_epoch', 1,
-                   require=['p#2'], desc='(threshold) <- the epoch being entered')
+    # wherever under inform_epoch the deletion is issued (repository method, private helpers): its threshold is the epoch being entered
+    ctx.sink_arg(clause, CS + 'inform_epoch', AG + 'database::query::open_message::delete_open_message::DeleteOpenMessageQuery::below_epoch_threshold', 0,
+                 require=['p#2'], forbid=['call:*::Add*::add', 'call:*::Epoch::next', 'call:*::Epoch::offset_*', 'call:*::checked_add', 'call:*::saturating_add'],
+                 desc='(threshold) <- the epoch being entered, not moved forward', key='open_message:prune-threshold')
